@@ -81,7 +81,7 @@ open PqV.Gen.SchemaLevels
 /-- the three repetition-type tests of `SchemaHelper` as the source has them now (REGENERATED):
     every non-REQUIRED element makes a path not required and adds a definition level, exactly the
     REPEATED elements add a repetition level -/
-theorem level_tests_now : ∀ rt, rt < 3 →
+theorem level_tests_now : recognised = true ∧ ∀ rt, rt < 3 →
     reqTest rt = decide (rt ≠ 0) ∧ defTest rt = decide (rt ≠ 0) ∧ repTest rt = decide (rt = 2) := by decide
 
 /-- **definition levels are skipped exactly when there are none**: `is_required(path)` (which makes
